@@ -29,6 +29,7 @@ INVS = {
     'OpsUnary': ['InvShape', 'InvCenter', 'InvExtent', 'InvSlices', 'InvClosedAgrees'],
     'OpsFloat': ['InvFromFloat', 'InvClosedAgrees'],
     'OpsAssoc': ['InvAssocUnion', 'InvAssocInter'],
+    'OpsRegion': ['InvToRegion', 'InvAsArtist'],
 }
 
 
@@ -95,6 +96,25 @@ def call(op, a, b, c, img, flt, B, wrap=int, eps=(0, 0, 0, 0), epsk=20):
             return [int(round(2 * float(v))) if 2 * float(v) == round(2 * float(v)) else 'frac' for v in e]
         if op == 'slices':
             return proj_slices(A.get_overlap_slices((img[0], img[1])), [int(v) for v in a], img)
+        if op == 'to_region':
+            try:
+                r = A.to_region()
+            except ValueError:
+                return []          # refused: an empty box has no rectangle region
+            vals = [2 * float(r.center.x), 2 * float(r.center.y), float(r.width), float(r.height)]
+            if type(r).__name__ != 'RectanglePixelRegion' or float(r.angle.value) != 0.0 or any(v != int(v) for v in vals):
+                return {'exc': f'not an axis-aligned half-integer rectangle: {r!r}'}
+            if a[0] < a[1] and a[2] < a[3] and proj_box(r.bounding_box) != [int(v) for v in a]:
+                return {'exc': f'to_region().bounding_box = {proj_box(r.bounding_box)}'}
+            return [int(v) for v in vals]
+        if op == 'as_artist':
+            import matplotlib
+            matplotlib.use('Agg')
+            p = A.as_artist()
+            vals = [2 * float(p.get_x()), 2 * float(p.get_y()), float(p.get_width()), float(p.get_height())]
+            if any(v != int(v) for v in vals):
+                return {'exc': f'patch not on the half-integer lattice: {vals}'}
+            return [int(v) for v in vals]
         if op == 'assoc_union':
             Bb, Cc = B(*b), B(*c)
             return proj_box(A.union(Bb).union(Cc))
@@ -120,6 +140,22 @@ def same(op, model, real):
     return model == real
 
 
+def _state_fn(rec, s, idx):
+    from regions import RegionBoundingBox as B
+    op = s['op']
+    real = call(op, s['a'], s['b'], s['c'], s['img'], s['flt'], B)
+    rec.traces += 1
+    nontriv = op in ('from_float',) or (s['a'][0] < s['a'][1] and s['a'][2] < s['a'][3])
+    rec.case((op, tuple(s['a']), tuple(s['b']), tuple(s['c']), tuple(s['img']), tuple(s['flt'])), nontriv)
+    if not same(op, s['res'], real):
+        rec.violation(f'C19|replay|{op}|{_kind(op, s, real)}',
+                      f'{op}: model says {s["res"]}, RegionBoundingBox gives {real}',
+                      {'op': op, 'a': s['a'], 'b': s['b'], 'c': s['c'], 'img': s['img'], 'flt8': s['flt'],
+                       'model': s['res'], 'real': real})
+    elif idx % 9973 == 1:
+        rec.sample({'op': op, 'a': s['a'], 'b': s['b'], 'img': s['img'], 'flt8': s['flt'], 'res': s['res']})
+
+
 def run(ctx):
     from regions import RegionBoundingBox as B
     quick = ctx.tier == 'quick'
@@ -127,6 +163,7 @@ def run(ctx):
         ('pairs', 'OpsPair', dict(lo=-2, hi=2, img=1, flo=-4, fhi=4) if quick else dict(lo=-3, hi=3, img=1, flo=-4, fhi=4)),
         ('unary+slices', 'OpsUnary', dict(lo=-3, hi=4, img=4, flo=-4, fhi=4) if quick else dict(lo=-4, hi=6, img=7, flo=-4, fhi=4)),
         ('from_float', 'OpsFloat', dict(lo=-1, hi=1, img=1, flo=-12, fhi=12) if quick else dict(lo=-1, hi=1, img=1, flo=-20, fhi=20)),
+        ('to_region+as_artist', 'OpsRegion', dict(lo=-3, hi=4, img=1, flo=-4, fhi=4) if quick else dict(lo=-5, hi=6, img=1, flo=-4, fhi=4)),
         ('triples', 'OpsAssoc', dict(lo=0, hi=2, img=1, flo=-4, fhi=4) if quick else dict(lo=-1, hi=2, img=1, flo=-4, fhi=4)),
     ]
     for what, ops, k in configs:
@@ -141,22 +178,10 @@ def run(ctx):
             continue
         if res.coverage.get('Return', (0, 0))[0] == 0:
             raise tlc.TlcError('vacuous: Return never taken')
-        n = 0
-        for s in parse_dump(res.dump_path, only='pc = "ret"'):
-            op = s['op']
-            real = call(op, s['a'], s['b'], s['c'], s['img'], s['flt'], B)
-            n += 1
-            nontriv = op in ('from_float',) or (s['a'][0] < s['a'][1] and s['a'][2] < s['a'][3])
-            key = (op, tuple(s['a']), tuple(s['b']), tuple(s['c']), tuple(s['img']), tuple(s['flt']))
-            ctx.case(key, nontriv)
-            if not same(op, s['res'], real):
-                ctx.violation(f'C19|replay|{op}|{_kind(op, s, real)}',
-                              f'{op}: model says {s["res"]}, RegionBoundingBox gives {real}',
-                              {'op': op, 'a': s['a'], 'b': s['b'], 'c': s['c'], 'img': s['img'], 'flt8': s['flt'],
-                               'model': s['res'], 'real': real})
-            elif n % 9973 == 1:
-                ctx.sample({'op': op, 'a': s['a'], 'b': s['b'], 'img': s['img'], 'flt8': s['flt'], 'res': s['res']})
-        ctx.traces += n
+        from .. import par
+        before = ctx.traces
+        par.pmap_dump(ctx, _state_fn, res.dump_path, only='pc = "ret"', chunk=4000)
+        n = ctx.traces - before
         ctx.note(f'replayed_{what}', n)
         tlc.cleanup(res.workdir)
     trace_validation(ctx, B)
